@@ -13,6 +13,7 @@ def one(length, opcode, fin, keykind, api, short, seed=0, text=False, bytearray_
     from websocket._abnf import ABNF
     rnd = random.Random(seed * 7919 + length)
     draws = []
+    reset = False
 
     def bkey(n):
         k = bytes(rnd.randrange(256) for _ in range(n))
@@ -30,6 +31,10 @@ def one(length, opcode, fin, keykind, api, short, seed=0, text=False, bytearray_
         ws.set_mask_key(bkey)
     elif keykind == "str":
         ws.set_mask_key(skey)
+    elif keykind == "default" and length % 3 == 0:
+        ws.set_mask_key(skey)
+        ws.set_mask_key(None)  # back to the default source: nothing may be drawn from the replaced one
+        reset = True
     if text:
         s = "".join(rnd.choice("aé€😀z") for _ in range(length))
         payload, expect = s, s.encode("utf-8")
@@ -41,6 +46,10 @@ def one(length, opcode, fin, keykind, api, short, seed=0, text=False, bytearray_
         ret = ws.send(payload, opcode)
     elif api == "send_binary":
         ret, opcode = ws.send_binary(payload), 2
+    elif api == "send_bytes":
+        ret, opcode = ws.send_bytes(payload), 2
+    elif api == "send_text":
+        ret, opcode = ws.send_text(payload), 1
     elif api == "ping":
         ret, opcode = ws.ping(payload), 9
     elif api == "pong":
@@ -64,9 +73,11 @@ def one(length, opcode, fin, keykind, api, short, seed=0, text=False, bytearray_
         problems.append("payload differs")
     if wire != S.rfc_encode(want_fin, opcode, expect, f["key"]):
         problems.append("not the shortest length form")
+    if reset and (ws.get_mask_key is not None or draws):
+        problems.append("set_mask_key(None) did not restore the default key source (or the replaced source was still drawn from)")
     if keykind in ("bytes", "str") and (len(draws) != 1 or draws[0] != f["key"]):
         problems.append(f"key on the wire is not the single value drawn ({len(draws)} draws)")
-    if api in ("send", "send_binary", "send_frame") and ret != len(wire):
+    if api in ("send", "send_binary", "send_bytes", "send_text", "send_frame") and ret != len(wire):
         problems.append(f"returned {ret}, wrote {len(wire)}")
     return problems
 
@@ -76,7 +87,7 @@ def search(seed, budget, hint=None):
     tried = 0
     combos = []
     for length in LENGTHS:
-        for api in ("send", "send_frame", "ping", "pong", "send_binary", "send_close"):
+        for api in ("send", "send_frame", "ping", "pong", "send_binary", "send_bytes", "send_text", "send_close"):
             for keykind in ("default", "bytes", "str"):
                 combos.append((length, api, keykind))
     rnd.shuffle(combos)
@@ -89,7 +100,7 @@ def search(seed, budget, hint=None):
         opcode = rnd.choice([1, 2, 0]) if api in ("send", "send_frame") else 2
         fin = rnd.choice([0, 1])
         short = [rnd.choice([1, 2, 3, 5, 0, 10 ** 9]) for _ in range(rnd.randint(0, 6))]
-        for text in ((False, True) if api == "send" and length < 200 else (False,)):
+        for text in ((True,) if api == "send_text" else (False, True) if api == "send" and length < 200 else (False,)):
             tried += 1
             w = dict(length=length, opcode=opcode, fin=fin, keykind=keykind, api=api, short=short, seed=seed, text=text,
                      bytearray_=bool(length % 2) and not text)
